@@ -3,6 +3,8 @@ import KojenVerif.Model.Pipeline
 import KojenVerif.Model.DocCheck
 import KojenVerif.Model.OutStage
 import KojenVerif.Model.Conn
+import KojenVerif.Model.Wire
+import KojenVerif.Model.Dispatch
 /-
   Line-protocol driver: one JSON object per input line, one JSON object per output line.
   Run with `lake env lean --run Driver/Main.lean`.  The harness pipes the same inputs to the
@@ -89,6 +91,26 @@ def unhex (s : String) : List Nat := unhexL s.toList
 def hexDigit (n : Nat) : Char := if n < 10 then Char.ofNat (48 + n) else Char.ofNat (87 + n)
 def toHex (b : List Nat) : String := String.ofList (b.flatMap (fun x => [hexDigit (x / 16 % 16), hexDigit (x % 16)]))
 
+partial def parseFld (j : Json) : Except String Wire.Fld := do
+  match j.getObjVal? "prim" with
+  | .ok p => do
+    let a ← p.getArr?
+    match a.toList with
+    | [sz, d] => do
+      let n ← sz.getNat?
+      match d with
+      | Json.null => pure (Wire.Fld.prim n none)
+      | _ => do pure (Wire.Fld.prim n (some (unhex (← d.getStr?))))
+    | _ => throw "prim: [size, default]"
+  | .error _ => do
+    let fs ← (← j.getObjVal? "nested").getArr?
+    let l ← fs.toList.mapM parseFld
+    pure (Wire.Fld.nested l)
+
+def parseFlds (j : Json) : Except String (List Wire.Fld) := do
+  let a ← j.getArr?
+  a.toList.mapM parseFld
+
 def handle (j : Json) : Except String Json := do
   let cmd ← (← j.getObjVal? "cmd").getStr?
   match cmd with
@@ -161,6 +183,35 @@ def handle (j : Json) : Except String Json := do
       let r := Conn.feedAll ⟨p0, p1⟩ Conn.St.init cs
       pure (Json.mkObj [("msgs", Json.arr (r.2.map (fun b => Json.str (toHex b))).toArray),
                         ("buf", Json.str (toHex r.1.buf)), ("req", Json.num r.1.req)])
+  | "layout" => do
+    let fs ← parseFlds (← j.getObjVal? "fields")
+    let base ← (← j.getObjVal? "base").getNat?
+    pure (Json.mkObj [("size", Json.num (base + Wire.sizeList fs)),
+                      ("offsets", Json.arr ((Wire.offsets fs base).map (fun (n : Nat) => Json.num (JsonNumber.fromNat n))).toArray)])
+  | "factory" => do
+    let fs ← parseFlds (← j.getObjVal? "fields")
+    let pre ← (← j.getObjVal? "preamble").getNat?
+    let tid ← (← j.getObjVal? "typeId").getNat?
+    let args ← (← j.getObjVal? "args").getArr?
+    let al ← args.toList.mapM (fun x => do pure (unhex (← x.getStr?)))
+    let m : Wire.Msg := ⟨pre, tid, fs⟩
+    pure (Json.mkObj [("default", Json.str (toHex m.factoryDefault)), ("with", Json.str (toHex (m.factoryWith al))),
+                      ("size", Json.num m.size)])
+  | "transmit" => do
+    let acc ← (← j.getObjVal? "accepts").getArr?
+    let al ← acc.toList.mapM (fun x => x.getBool?)
+    let retries ← (← j.getObjVal? "retries").getInt?
+    let r := Dispatch.transmit (fun k => al.getD k true) retries
+    pure (Json.mkObj [("ok", Json.bool r.1), ("calls", Json.num r.2)])
+  | "dispatch" => do
+    let ids ← (← j.getObjVal? "ids").getArr?
+    let il ← ids.toList.mapM (fun x => x.getNat?)
+    let msgs ← (← j.getObjVal? "msgs").getArr?
+    let ml ← msgs.toList.mapM (fun x => do pure (unhex (← x.getStr?)))
+    let enc : Dispatch.Target → Json
+      | .handler i => Json.num (JsonNumber.fromNat i)
+      | .notHandled => Json.num (JsonNumber.fromInt (-1))
+    pure (Json.mkObj [("targets", Json.arr (ml.map (fun m => enc (Dispatch.dispatch il m))).toArray)])
   | "split" => do
     let s ← getStr j "s"
     pure (Json.mkObj [("lines", jStrs (splitLines s))])
